@@ -941,7 +941,7 @@ class RecurrencePlot(Cached):
         #  Prescribed distribution
         dist = to_cy(dist, DFIELD)
         #  Normalize distribution
-        dist /= dist.sum()
+        dist = dist / dist.sum()
 
         _rejection_sampling(dist, resampled_dist, N, M)
         return resampled_dist
